@@ -74,6 +74,9 @@ type PathSample struct {
 	Obs    map[string]interface{}
 	End    string
 	Tags   []string
+	// MayFail: some obligation on this path has a counterexample; only when it is false must a native run of the
+	// sampled inputs be free of assertion failures
+	MayFail bool
 }
 
 type Alt struct {
@@ -537,6 +540,7 @@ func (e *Exec) pathEnd(st *State, end string) {
 		if st.panicking != nil {
 			desc = "uncaught panic: " + st.panicking.Desc
 		}
+		st.mayFail = true
 		r.Violations = append(r.Violations, Violation{Msg: desc, Inputs: e.InputsUnder(st, e.pathModel(st)), PathTag: strings.Join(st.Tags, ",")})
 	}
 	if end == EndInfeasible {
@@ -554,7 +558,7 @@ func (e *Exec) pathEnd(st *State, end string) {
 		for _, o := range st.Obs {
 			obs[o.Key] = e.Concretize(st, o.Val, ev)
 		}
-		r.Samples = append(r.Samples, PathSample{Inputs: e.InputsUnder(st, ev), Obs: obs, End: end, Tags: append([]string(nil), st.Tags...)})
+		r.Samples = append(r.Samples, PathSample{Inputs: e.InputsUnder(st, ev), Obs: obs, End: end, Tags: append([]string(nil), st.Tags...), MayFail: st.mayFail})
 	}
 }
 
@@ -1097,6 +1101,7 @@ func (e *Exec) monitorStore(st *State, p *Ptr, fr *Frame, in ssa.Instruction) {
 	}
 	pos := e.Prog.Fset.Position(in.Pos())
 	msg := fmt.Sprintf("frame[%s]: store to pre-existing object (%s) at %s in %s", fm.label, o.Site, pos, fr.fn)
+	st.mayFail = true
 	e.Res.Violations = append(e.Res.Violations, Violation{Msg: msg, Inputs: e.InputsUnder(st, e.pathModel(st)), PathTag: strings.Join(st.Tags, ",")})
 }
 
